@@ -437,7 +437,28 @@ pub fn spec_for(prop: &str, tier: &str) -> Option<CrashSpec> {
                 } else {
                     vec![mk(Consistency::Strict, Backend::Fd, Fsync::No), mk(Consistency::Strict, Backend::Mmap, Fsync::Each)]
                 },
-                workloads: enum_seqs(&alpha, if thorough { 4 } else { 3 }, 1),
+                workloads: {
+                    let mut w = enum_seqs(&alpha, if thorough { 4 } else { 3 }, 1);
+                    // a file whose third unit was handed out but never written (the first
+                    // append on a topic was rejected): the next rotation lands in the last unit
+                    // of the file, behind an all-zero unit
+                    let hole = vec![Op::Append { t: 0, len: 1 }, Op::Append { t: 1, len: half }, Op::Append { t: 2, len: s.max_alloc }];
+                    for tail in enum_seqs(&alpha, if thorough { 3 } else { 2 }, 1) {
+                        let mut x = hole.clone();
+                        x.extend(tail);
+                        w.push(x);
+                    }
+                    if thorough {
+                        for (_n, pre) in crate::checks::prestates() {
+                            for tail in enum_seqs(&alpha, 2, 1) {
+                                let mut x = pre.clone();
+                                x.extend(tail);
+                                w.push(x);
+                            }
+                        }
+                    }
+                    w
+                },
                 power_loss: false,
                 time_cap_s: if thorough { 1100.0 } else { 55.0 },
             })
@@ -497,7 +518,31 @@ pub fn spec_for(prop: &str, tier: &str) -> Option<CrashSpec> {
                 // positions share their in-block offset and differ only in the block
                 vec![Op::Append { t: 0, len: s.fill }, Op::Append { t: 0, len: s.fill }, Op::Append { t: 0, len: s.fill }],
                 vec![Op::Append { t: 0, len: half }, Op::Append { t: 0, len: half }, Op::Append { t: 0, len: half }, Op::Append { t: 0, len: half }, Op::Append { t: 0, len: half }],
+                // the consumer read part of a block through the tail path, then the writer
+                // sealed that block: the in-memory tail progress names a block that is now
+                // in the sealed chain while the next polls arrive on the new active block
+                vec![
+                    Op::Append { t: 0, len: 1 },
+                    Op::Append { t: 0, len: 1 },
+                    Op::ReadNext { t: 0, ckpt: true },
+                    Op::Append { t: 0, len: half },
+                    Op::Append { t: 0, len: half },
+                    Op::Append { t: 0, len: 1 },
+                ],
             ];
+            if thorough {
+                // every library pre-state with shorter suffixes
+                for (_n, pre) in crate::checks::prestates() {
+                    for suffix in enum_seqs(&alpha, 3, 1) {
+                        if !suffix.iter().any(|o| matches!(o, Op::ReadNext { .. } | Op::BatchRead { .. })) {
+                            continue;
+                        }
+                        let mut w = pre.clone();
+                        w.extend(suffix);
+                        workloads.push(w);
+                    }
+                }
+            }
             for r in roots.iter() {
                 for suffix in enum_seqs(&alpha, if thorough { 4 } else { 3 }, 1) {
                     if !suffix.iter().any(|o| matches!(o, Op::ReadNext { .. } | Op::BatchRead { .. })) {
@@ -528,7 +573,14 @@ pub fn spec_for(prop: &str, tier: &str) -> Option<CrashSpec> {
             ];
             Some(CrashSpec {
                 prop: "C10",
-                cfgs: vec![mk(Consistency::Strict, Backend::Fd, Fsync::Each), mk(Consistency::Strict, Backend::Mmap, Fsync::Each)],
+                cfgs: vec![mk(Consistency::Strict, Backend::Fd, Fsync::Each), mk(Consistency::Strict, Backend::Mmap, Fsync::Each), {
+                    // the SyncEach instance is not the first instance of its process: the
+                    // process-wide O_SYNC choice was made by a NoFsync instance, so its files
+                    // are opened without O_SYNC and durability rests on the explicit flushes
+                    let mut c = mk(Consistency::Strict, Backend::Fd, Fsync::Each);
+                    c.decoy_first = true;
+                    c
+                }],
                 workloads: {
                     let mut w = enum_seqs(&alpha, if thorough { 4 } else { 3 }, 0);
                     // a first file with every block handed out (an oversized entry takes two
@@ -539,6 +591,15 @@ pub fn spec_for(prop: &str, tier: &str) -> Option<CrashSpec> {
                         let mut x = full_file.clone();
                         x.extend(tail);
                         w.push(x);
+                    }
+                    if thorough {
+                        for (_n, pre) in crate::checks::prestates() {
+                            for tail in enum_seqs(&alpha, 2, 0) {
+                                let mut x = pre.clone();
+                                x.extend(tail);
+                                w.push(x);
+                            }
+                        }
                     }
                     w
                 },
